@@ -81,3 +81,13 @@ Definition chk_fileobj
 Definition chk_copy_total (c : bool * (Z * Z) * (Z * Z) * option Z) : bool :=
   let '(follow, l, s, got) := c in
   option_eqb Z.eqb (copy_total follow (mkFattrs (fst l) (snd l)) (mkFattrs (fst s) (snd s))) got.
+
+(* whole run() of the copier against the fake file system: as chk_copier(_fixed), plus whether closing
+   the source / the destination succeeds; observed: what run() raised (None = returned normally),
+   whether the destination was closed, destination bytes, requests *)
+Definition chk_copier_run (fixd : bool)
+  (c : Z * Z * Z * bool * list (Z * Z) * list (nat * creply) * list (Z * Z) * bool * bool * option cerr * bool * bytes) : bool :=
+  let '(bs, mx, total, sparse, ranges, sched, sent, sc, dc, out, closed, dst) := c in
+  let s := copier_run bs mx total sparse fixd ranges (singles sched) in
+  option_eqb cerr_eqb (fst (copier_outcome s sc dc)) out && Bool.eqb (snd (copier_outcome s sc dc)) closed
+  && zlist_eqb (copier_dst s) dst && list_eqb pair_eqb (p_sent (m_pio (c_m s))) sent.
